@@ -107,5 +107,6 @@ pub proof fn c02_valid_related_tuple_accepted(pk1: Pk, pk2: Pk, s1: Sig, s2: Sig
     requires ietf_core_verify(pk1, s1, m, d), ietf_core_verify(pk2, s2, m, d), pk_add(pk1, pk2).dl() != 0,
     ensures ietf_core_verify(pk_add(pk1, pk2), sig_add(s1, s2), m, d)
 {
-    broadcast use ring;
+    lemma_distrib(hp(m, d).dl(), pk1.dl(), pk2.dl());
+    lemma_range_add(pk1.dl(), pk2.dl()); lemma_range_add(s1.dl(), s2.dl());
 }
